@@ -10,10 +10,13 @@ import (
 	"encoding/json"
 	"fmt"
 	"os"
+	"regexp"
+	"strings"
 )
 
 type replayT struct {
 	Vars    map[string]int64 `json:"vars"`
+	SVars   map[string]string `json:"svars"`
 	Choices []int64          `json:"choices"`
 }
 
@@ -149,3 +152,12 @@ func Prov(p []byte) (src string, off int64, ok bool) { return "", 0, false }
 
 // IsConcrete reports whether v contains no symbolic part (always true natively).
 func IsConcrete(v interface{}) bool { return true }
+
+// Str returns an arbitrary (ASCII) string.
+func Str(name string) string { return rp.SVars[uniq(name)] }
+
+// Matches reports whether s matches the (anchored or not) regular expression.
+func Matches(s, pattern string) bool { return regexp.MustCompile(pattern).MatchString(s) }
+
+// HasPrefix is strings.HasPrefix (usable in specifications without forking).
+func HasPrefix(s, p string) bool { return strings.HasPrefix(s, p) }
